@@ -166,10 +166,10 @@ def as_input(w, explicit=None):
 _MODELS = {}
 
 
-def model(kind, metric, dim):
-    key = (kind, metric, dim)
+def model(kind, metric, dim, refsize=3):
+    key = (kind, metric, dim, refsize)
     if key not in _MODELS:
-        _MODELS[key] = fit_model(kind, metric, dim)
+        _MODELS[key] = fit_model(kind, metric, dim, refsize=refsize)
     return _MODELS[key]
 
 
@@ -177,7 +177,7 @@ def run_measure(case):
     kind, metric, dim = case["kind"], case["metric"], case["dim"]
     w = np.array(case["w"], dtype=np.float64)
     vec = VEC[dim]
-    est = model(kind, metric, dim)
+    est = model(kind, metric, dim, case.get("refsize", 3))
     tol = 1e-5 if kind != "sinkhorn" else 1e-4
     supp = np.nonzero(w)[0]
     if kind == "exact" and len(supp) > 1:
@@ -216,6 +216,9 @@ def _measure_cases(tier, kinds, dims):
             for dim in dims:
                 for w in compositions(U, 4):
                     yield {"kind": kind, "metric": metric, "dim": dim, "w": list(w)}
+                    if tier != "quick" and kind != "approx":
+                        for rs in (2, 4):
+                            yield {"kind": kind, "metric": metric, "dim": dim, "w": list(w), "refsize": rs}
 
 
 def run_batch(case):
